@@ -56,7 +56,7 @@ func main() {
 	probe.Init()
 	ctx := context.Background()
 	outlier := smicro.WithEnableOutlier(func(context.Context) bool { return true })
-	for _, cs := range probe.Plan() {
+	for cs, more := probe.Next(); more; cs, more = probe.Next() {
 		custom, sc := cs.Custom, cs.Sc
 		probe.SetCase(cs)
 		// server handler wrapper
